@@ -219,7 +219,7 @@ ReqNext == Begin \/ PairHead \/ PairFlush \/ BufStep \/ PairDone \/ CloseFlush \
 
 \* ---- response direction -------------------------------------------------------
 \* a script is a sequence of records [t |-> "out"|"err"|"end", u |-> <<units>>]
-IsErrUnit(u) == u \in {"e1", "e2"}
+IsErrUnit(u) == u \in {"e1", "e2", "e3"}
 
 ReadRec ==                                             \* one rec.read inside streamReader.Read
     /\ pc = "resp" /\ ~eof /\ j <= Len(script)
@@ -278,9 +278,12 @@ Merge(chunks, pos) ==
     IN G[nOut]
 
 \* stream terminators a responder may or may not send before EndRequest
+\* (the last one: diagnostics written after stdout has been closed, e.g. by shutdown handlers - they
+\* belong in the error log like any other stderr output)
 Tails == { <<>>, <<[t |-> "out", u |-> <<>>]>>,
            <<[t |-> "out", u |-> <<>>], [t |-> "err", u |-> <<>>]>>,
-           <<[t |-> "err", u |-> <<>>], [t |-> "out", u |-> <<>>]>> }
+           <<[t |-> "err", u |-> <<>>], [t |-> "out", u |-> <<>>]>>,
+           <<[t |-> "out", u |-> <<>>], [t |-> "err", u |-> <<"e3">>], [t |-> "err", u |-> <<>>]>> }
 
 Scripts(st) ==
     UNION { { Merge(ChunksOf(OutUnits(st), S), pos) \o tl \o <<[t |-> "end", u |-> <<>>]>> :
